@@ -15,6 +15,10 @@
 #include "interrogate.h"
 #include "typeManager.h"
 
+#include "cppConstType.h"
+#include "cppPointerType.h"
+#include "cppTypedefType.h"
+
 using std::string;
 
 /**
@@ -79,10 +83,32 @@ ParameterRemapToWString(CPPType *orig_type) :
 {
   static CPPType *char_star_type = nullptr;
   if (char_star_type == nullptr) {
-    char_star_type = parser.parse_type("const wchar_t *");
+    char_star_type = parser.parse_type("wchar_t *");
   }
 
-  _new_type = char_star_type;
+  static CPPType *const_char_star_type = nullptr;
+  if (const_char_star_type == nullptr) {
+    const_char_star_type = parser.parse_type("const wchar_t *");
+  }
+
+  // As for narrow strings: a pointer to non-const characters cannot be
+  // initialized from the const pointer.
+  CPPType *unwrapped = orig_type;
+  while (unwrapped->get_subtype() == CPPDeclaration::ST_const ||
+         unwrapped->get_subtype() == CPPDeclaration::ST_typedef) {
+    if (unwrapped->get_subtype() == CPPDeclaration::ST_const) {
+      unwrapped = unwrapped->as_const_type()->_wrapped_around;
+    } else {
+      unwrapped = unwrapped->as_typedef_type()->_type;
+    }
+  }
+  CPPPointerType *pointer_type = unwrapped->as_pointer_type();
+  if (pointer_type != nullptr &&
+      !TypeManager::is_const(pointer_type->_pointing_at)) {
+    _new_type = char_star_type;
+  } else {
+    _new_type = const_char_star_type;
+  }
 }
 
 /**
